@@ -139,7 +139,9 @@ func (pm *PolyformMaterial) equal(other *PolyformMaterial) bool {
 		return false
 	}
 	for i, ext := range pm.Extensions {
-		if ext != other.Extensions[i] {
+		// Extension structs carry pointer members (*float64, *PolyformTexture):
+		// compare what they point to, not the pointers.
+		if !reflect.DeepEqual(ext, other.Extensions[i]) {
 			return false
 		}
 	}
